@@ -63,6 +63,7 @@ func (e Ext) MarshalJSON() ([]byte, error) { return json.Marshal([]any{e.ID, e.C
 type TBS struct {
 	K        string `json:"k"` // "tbs", "err", "none"
 	Why      string `json:"why,omitempty"`
+	Ver      string `json:"ver,omitempty"` // "" / "v3": version [0] = 2; "v2": version [0] = 1; "v1": no version element (DEFAULT v1)
 	Serial   string `json:"serial,omitempty"`
 	Sig      string `json:"sig,omitempty"`
 	Issuer   Name   `json:"issuer"`
@@ -296,7 +297,7 @@ var serialHex = map[string]string{
 	"p127": "7f", "p128": "0080", "p255": "00ff", "p256": "0100", "p32768": "008000",
 	"long20": "7f" + strings.Repeat("a5", 19), "max20": "7f" + strings.Repeat("ff", 19),
 	"long21": "0080" + strings.Repeat("5a", 19),
-	"m1": "ff", "m127": "81", "m128": "80", "neg": "ff7f", "m255": "ff01", "m256": "ff00",
+	"m1":     "ff", "m127": "81", "m128": "80", "neg": "ff7f", "m255": "ff01", "m256": "ff00",
 	"m32768": "8000", "m32769": "ff7fff",
 	"min20": "80" + strings.Repeat("00", 19), "min20p1": "80" + strings.Repeat("00", 18) + "01",
 	"neg21": "ff7f" + strings.Repeat("ff", 19),
@@ -333,6 +334,17 @@ type DERTable struct {
 		Octets []int  `json:"octets"`
 	} `json:"arcs"`
 	Logs map[string]LogInfo `json:"logs"`
+	// the entry points through which a certificate is read back (Precert.tla EntryPoints)
+	EntryPoints map[string]EPoint `json:"entrypoints"`
+}
+
+// EPoint is an entry point of Precert.tla: one call for the whole sequence or one per certificate, the certificate
+// or its TBSCertificate, DER or PEM, everything that is reported or the SCT list alone.
+type EPoint struct {
+	Plural bool   `json:"plural"`
+	Input  string `json:"input"`
+	Armor  string `json:"armor"`
+	View   string `json:"view"`
 }
 
 func octets(xs []int) []byte {
@@ -391,6 +403,26 @@ func CheckDERTable(t *DERTable) error {
 	for name, l := range t.Logs {
 		if logTable[name] != l {
 			return fmt.Errorf("log %s: specification %+v, harness %+v", name, l, logTable[name])
+		}
+	}
+	return t.checkEntryPoints()
+}
+
+// harnessEPs is the harness' own copy of Precert.tla EntryPoints: what its dispatch (callEntry) drives.
+var harnessEPs = map[string]EPoint{
+	"ParseCertificate": {false, "cert", "der", "all"}, "ParseCertificates": {true, "cert", "der", "all"},
+	"ParseTBSCertificate": {false, "tbs", "der", "all"}, "CertificateFromPEM": {false, "cert", "pem", "all"},
+	"CertificatesFromPEM": {true, "cert", "pem", "all"}, "ParseSCTsFromCertificate": {false, "cert", "der", "scts"},
+	"ParseSCTsFromCertificatePEM": {false, "cert", "pem", "scts"},
+	"LeafX509Certificate":         {false, "cert", "leaf", "all"}, "LeafPrecertificate": {false, "tbs", "leaf", "all"}}
+
+func (t *DERTable) checkEntryPoints() error {
+	if len(t.EntryPoints) != len(harnessEPs) {
+		return fmt.Errorf("specification has %d entry points, harness %d", len(t.EntryPoints), len(harnessEPs))
+	}
+	for n, e := range t.EntryPoints {
+		if harnessEPs[n] != e {
+			return fmt.Errorf("entry point %s: specification %+v, harness %+v", n, e, harnessEPs[n])
 		}
 	}
 	return nil
@@ -651,7 +683,15 @@ func (m *Mat) tbsBytes(t *TBS, spki []byte) []byte {
 		panic("not a TBS: " + t.K)
 	}
 	return seq(func(b *cryptobyte.Builder) {
-		b.AddASN1(cbasn1.Tag(0).ContextSpecific().Constructed(), func(b *cryptobyte.Builder) { b.AddASN1Int64(2) })
+		switch t.Ver {
+		case "", "v3":
+			b.AddASN1(cbasn1.Tag(0).ContextSpecific().Constructed(), func(b *cryptobyte.Builder) { b.AddASN1Int64(2) })
+		case "v2":
+			b.AddASN1(cbasn1.Tag(0).ContextSpecific().Constructed(), func(b *cryptobyte.Builder) { b.AddASN1Int64(1) })
+		case "v1": // DER: a component that has its DEFAULT value is not encoded (X.690 11.5)
+		default:
+			panic("harness: version " + t.Ver)
+		}
 		b.AddBytes(serialDER(t.Serial))
 		b.AddBytes(sigAlg(t.Sig))
 		b.AddBytes(nameDER(t.Issuer))
